@@ -30,7 +30,7 @@ FLOORS = {'runs': 500, 'selected_files': 1000, 'decoys_checked': 3000,
           'order_checked': 300, 'scrambled_runs': 200, 'multi_root_cases': 60,
           'module_filter_cases': 60, 'package_cases': 30,
           'package_path_cases': 30, 'package_path_selected': 30,
-          'package_path_module_filter_cases': 10}
+          'package_path_module_filter_cases': 10, 'unimportable_selected': 40}
 BATCH_TIMEOUT = 300
 
 
@@ -70,6 +70,14 @@ def run_case(case):
             if f.startswith(t + '/') and not any(
                     f.startswith(l + '/') or f == l for l in files.links):
                 files[twin[1] + f[len(t):]] = k
+    # test modules that cannot be imported (they are found, loaded - once -
+    # and reported like the others)
+    nbroken = 0
+    if rng.random() < 0.3:
+        for f, k in list(files.items()):
+            if k == 'py' and rng.random() < 0.2:
+                files[f] = 'pyfail'
+                nbroken += 1
     # a directory that is knit into a package from elsewhere
     # (--package-path DIR PACKAGE): a copy of one top-level tree under a
     # name the walk from the root does not enter; its modules are called
@@ -271,7 +279,7 @@ def run_case(case):
         if obs is None:
             return {'viol': viol, 'evals': 1, 'counters': counters}
         imported, ran, r = obs
-        py_files = {f for f, k in files.items() if k == 'py'}
+        py_files = {f for f, k in files.items() if k in ('py', 'pyfail')}
         cand_imports = [f for f in imported if f in py_files]
         C('selected_files', len(want_files))
         # exactly the expected files, once each
@@ -309,7 +317,11 @@ def run_case(case):
                 V('unrelated-package-imported', 'discovery-init-imported',
                   file=f)
         # each selected module's test ran once
+        C('unimportable_selected', sum(
+            1 for f in want_files if files.get(f) == 'pyfail'))
         for f in want_files:
+            if files.get(f) == 'pyfail':
+                continue
             if ran.count(f) != 1 and not optional:
                 V('selected-module-test-not-run-once', 'discovery-run',
                   file=f, count=ran.count(f))
